@@ -594,7 +594,11 @@ pub(crate) async fn get_one_term(
             prefix: PREFIX_DEFAULT.to_string(),
             hash: term.hash.into(),
         };
-        cache.put(&key, &fetch_term.range, &chunk_byte_indices, &data)?;
+        // The cache is an optimization: failing to store the term (e.g. an I/O error from a cache directory
+        // that a concurrent eviction just removed) must not fail the download of data we already hold.
+        let _ = cache
+            .put(&key, &fetch_term.range, &chunk_byte_indices, &data)
+            .log_error("cache error");
     }
 
     // if the requested range is smaller than the fetched range, trim it down to the right data
